@@ -22,12 +22,14 @@ ALL = ENGINE_PROPS
 
 # scopes -------------------------------------------------------------------------------
 CMP_SCOPE = dict(n="2,3", banks="1,2,3", structs="0,0,1,2", amts="1..4", limits="no")
+# heads-up with stacks that still hold a minimum bet after the flop, with and without a dealer blind above the big blind
+DEEP_SCOPE = dict(n="2", banks="3,4,5,6", structs="0,0,1,2;0,3,1,2", amts="1..5", limits="no")
 TIER = {
     "quick": dict(mc_scopes=["small"], mc_timeout=1500, random_runs=700, probe_runs=12, fork_runs=80,
-                  sim_num=250, explore=[CMP_SCOPE], bbonly_runs=25, sweep="small", shuffle_runs=150, seeds=1),
+                  sim_num=250, explore=[CMP_SCOPE, DEEP_SCOPE], bbonly_runs=25, sweep="small", shuffle_runs=150, seeds=1),
     "thorough": dict(mc_scopes=["small", "medium", "structs", "four"], mc_timeout=7200, random_runs=5000, probe_runs=100, fork_runs=800,
                      sim_num=1200,
-                     explore=[CMP_SCOPE,
+                     explore=[CMP_SCOPE, DEEP_SCOPE,
                               dict(n="2,3", banks="1,2,4", structs="0,0,1,2;1,0,1,2", amts="-1..6", limits="no"),
                               dict(n="2,3", banks="2,3,5", structs="1,2,0,0;0,0,1,2", amts="1..6", limits="pot"),
                               dict(n="4", banks="1,3", structs="0,0,1,2", amts="1..4", limits="no"),
